@@ -106,7 +106,7 @@ def describe(p, tab=None):
     for o in p['ops']:
         k = o['k']
         if k == 'addhandler': ops.append(('[in window] ' if o.get('win') else '') + ('AddHandler' if o['h']['pubkind'] != 1 else 'AddNoPublisherHandler') + ('(DUPLICATE NAME: panics)' if o.get('dup') else '') + ' ' + str(o['h']))
-        elif k == 'deliver': ops.append('deliver %s' % {kk: v for kk, v in o['d'].items()} + (' [concurrent batch %d]' % o['grp'] if o.get('grp') else ''))
+        elif k == 'deliver': ops.append(('[was already waiting when the preceding start subscribed] ' if o.get('backlog') else '') + 'deliver %s' % {kk: v for kk, v in o['d'].items()} + (' [concurrent batch %d]' % o['grp'] if o.get('grp') else ''))
         elif k == 'addhmw': ops.append(('[in window] ' if o.get('win') else '') + 'Handler(%r).AddMiddleware(mw%d%s)' % (o.get('name', ''), o['id'], ' appends msg %d' % (100 + o['id']) if o.get('app') else ''))
         elif k == 'addmw': ops.append('Router.AddMiddleware(mw%d%s)' % (o['id'], ' appends msg %d' % (100 + o['id']) if o.get('app') else ''))
         elif k == 'start': ops.append('Run / RunHandlers' + (' (a decorator constructor fails: returns an error)' if o.get('fail') else ''))
@@ -131,6 +131,7 @@ def stats(res, p):
     res.count('pub_decorators=%d' % min(5, sum(1 for o in p['ops'] if o['k'] == 'addpubdec')))
     res.count('sub_decorators=%d' % min(5, sum(1 for o in p['ops'] if o['k'] == 'addsubdec')))
     if any(o.get('dup') for o in p['ops']): res.count('duplicate_handler_name_attempts')
+    if any(p.get('slowsub') or []): res.count('programs_with_a_subscriber_whose_String()_is_slow')
     if any(o.get('lib') for o in p['ops']): res.count('programs_registering_the_library_MessageTransform_decorators')
     subs_pre = [i for i, t in enumerate(p['subty']) if t == 'message.messageTransformSubscriberDecorator']
     if subs_pre: res.count('programs_with_application_pre-decorated_subscribers')
@@ -163,6 +164,7 @@ def stats(res, p):
         res.count('copies_per_delivery=%d' % len(ob))
         res.count('outcome=%s' % ['ret', 'fail', 'panic'][d['outkind']])
         if d.get('chain'): res.count('deliveries_of_an_object_published_earlier(ctx keys present)')
+        if o.get('backlog'): res.count('deliveries_already_waiting_when_the_handler_subscribes(handed over inside Subscribe)')
         if d.get('utag') or d.get('ucancel'): res.count('deliveries_whose_context_carries_user_value_or_cancellation')
         if d['outkind'] == 0 and len(set(d.get('outs') or [])) > 1: res.count('deliveries_returning_>=2_messages_with_different_own_contexts')
         for c in ob:
